@@ -51,9 +51,12 @@ def gen_tree(rng, depth, nleaves_box, force_poly=True):
         i = nleaves_box[0]
         nleaves_box[0] += 1
         return ["leaf", i]
-    op = gen.choice(rng, ["add", "sub", "mul", "neg", "pos", "pow"], p=[.27, .2, .27, .08, .04, .14])
+    op = gen.choice(rng, ["add", "sub", "mul", "neg", "pos", "pow", "powarr"], p=[.26, .19, .26, .08, .04, .12, .05])
     if op in ("neg", "pos"):
         return [op, gen_tree(rng, depth - 1, nleaves_box)]
+    if op == "powarr":
+        # `**` with an array of exponents in the middle of a program (shape fixed later so that it broadcasts)
+        return ["powarr", gen_tree(rng, depth - 1, nleaves_box), None, [int(x) for x in rng.integers(0, 3, size=6)]]
     if op == "pow":
         return ["pow", gen_tree(rng, depth - 1, nleaves_box), int(rng.integers(0, 4 if depth > 1 else 7))]
     d2 = int(rng.integers(0, depth))
@@ -69,7 +72,7 @@ def leaves_of(tree, out=None):
         out.append(tree[1])
     else:
         for sub in tree[1:]:
-            if isinstance(sub, list):
+            if isinstance(sub, list) and sub and isinstance(sub[0], str):
                 leaves_of(sub, out)
     return out
 
@@ -85,6 +88,10 @@ def bound_of(tree, env):
     if op == "pow":
         b, k, n = bound_of(tree[1], env)
         return b ** max(tree[2], 1), k * tree[2], n ** max(tree[2], 1)
+    if op == "powarr":
+        b, k, n = bound_of(tree[1], env)
+        top = max(tree[3] + [1])
+        return b ** top, k * top, n ** top
     b1, k1, n1 = bound_of(tree[1], env)
     b2, k2, n2 = bound_of(tree[2], env)
     if op == "mul":
@@ -97,7 +104,7 @@ def poly_side(tree, env):
     """does evaluating this subtree with Python operators certainly go through numpoly?"""
     if tree[0] == "leaf":
         return env[tree[1]]["as"] in ("poly", "poly_T", "poly_perm")
-    if tree[0] in ("neg", "pos", "pow"):
+    if tree[0] in ("neg", "pos", "pow", "powarr"):
         return poly_side(tree[1], env)
     return poly_side(tree[1], env) or poly_side(tree[2], env)
 
@@ -107,9 +114,23 @@ def valid_tree(tree, env):
     op = tree[0]
     if op == "leaf":
         return True
-    if op in ("neg", "pos", "pow"):
+    if op in ("neg", "pos", "pow", "powarr"):
         return poly_side(tree[1], env) and valid_tree(tree[1], env)
     return (poly_side(tree[1], env) or poly_side(tree[2], env)) and valid_tree(tree[1], env) and valid_tree(tree[2], env)
+
+
+def fix_powarr(tree, rng, common):
+    """give every array-exponent node a shape that broadcasts with everything else in the program"""
+    if tree[0] == "powarr":
+        kshape = list(gen.sub_shape(rng, common)) if common else []
+        if not kshape and rng.random() < .5 and not common:
+            kshape = [1]
+        size = int(numpy.prod(kshape, dtype=int))
+        tree[2] = kshape
+        tree[3] = (tree[3] * (size // len(tree[3]) + 1))[:size]
+    for sub in tree[1:]:
+        if isinstance(sub, list) and sub and isinstance(sub[0], str):
+            fix_powarr(sub, rng, common)
 
 
 def gen_case(rng, idx, depth):
@@ -119,6 +140,7 @@ def gen_case(rng, idx, depth):
     for _ in range(50):
         box = [0]
         tree = gen_tree(rng, depth, box)
+        fix_powarr(tree, rng, common)
         env = [gen_leaf(rng, common, kinds, small=depth >= 3) for _ in range(box[0])]
         if not valid_tree(tree, env):
             continue
@@ -146,6 +168,8 @@ def eval_impl(tree, objs):
         return +eval_impl(tree[1], objs)
     if op == "pow":
         return eval_impl(tree[1], objs) ** tree[2]
+    if op == "powarr":
+        return eval_impl(tree[1], objs) ** numpy.array(tree[3], dtype=int).reshape(tuple(tree[2]))
     a, b = eval_impl(tree[1], objs), eval_impl(tree[2], objs)
     return {"add": operator.add, "sub": operator.sub, "mul": operator.mul}[op](a, b)
 
@@ -192,7 +216,7 @@ def ops_of(tree, out=None):
     if tree[0] != "leaf":
         out.append(tree[0])
         for sub in tree[1:]:
-            if isinstance(sub, list):
+            if isinstance(sub, list) and sub and isinstance(sub[0], str):
                 ops_of(sub, out)
     return out
 
